@@ -1,3 +1,85 @@
-"""placeholder until the probe-based properties are implemented"""
+"""Properties decided through accept/reject probes, expansions and the regenerated modules."""
+import json
+import os
+
+import stages
+
+
+def probe_violation(ctx, p, kind):
+    return {"property": ctx.pid, "kind": kind, "probe_class": p["cls"], "witness_key": p["cls"].split(":")[0],
+            "expected": p["expect"], "implementation": p["impl"], "model": p.get("model_detail"),
+            "rustc_error": p.get("error", "")[:1200], "source": p["source"], "subject": p.get("subject")}
+
+
+def eval_probes(ctx, out, problems, props=None, extra_rule=""):
+    pr = stages.probe_stage(ctx.seed, ctx.tier)
+    mine = [p for p in pr["probes"] if p["prop"] in (props or [ctx.pid])]
+    cov = out.evidence["coverage"]
+    cov["evaluations"] = cov.get("evaluations", 0) + len(mine)
+    cov["traces_validated_against_impl"] = cov.get("traces_validated_against_impl", 0) + len(mine)
+    classes = {}
+    for p in mine:
+        k = p["cls"].split(":")[0]
+        classes[k] = classes.get(k, 0) + 1
+    cov["probe_classes"] = classes
+    cov["distinct_nontrivial"] = cov.get("distinct_nontrivial", 0) + len({(p["cls"], p["source"]) for p in mine})
+    cov["expected_accept"] = sum(1 for p in mine if p["expect"] == "accept")
+    cov["expected_reject"] = sum(1 for p in mine if p["expect"] == "reject")
+    cov["rule"] = ("single-file probes compiled by rustc 1.95 against the freshly built derive (rustc --emit=metadata --extern enum_tools=<.so>); "
+                   "each probe is one legal declaration/configuration or a one-change mutant of one, class by class; expected verdict from the "
+                   "property, predicted verdict from the Lean model (`expand`), observed verdict from rustc; distinct = distinct (class, source)" + extra_rule)
+    bad = [p for p in mine if p["impl"] != p["expect"]]
+    mdiff = [p for p in mine if p.get("model") and p["model"] != p["impl"] and p["impl"] == p["expect"]]
+    cov["implementation_vs_expected_failures"] = len(bad)
+    cov["model_vs_implementation_disagreements"] = len(mdiff)
+    seen = set()
+    for p in sorted(bad, key=lambda p: len(p["source"])):
+        k = p["cls"].split(":")[0]
+        if k in seen:
+            continue
+        seen.add(k)
+        out.violations.append(probe_violation(ctx, p, "verdict-differs-from-property"))
+    if not bad:
+        for p in sorted(mdiff, key=lambda p: len(p["source"]))[:1]:
+            v = probe_violation(ctx, p, "model-differs-from-implementation")
+            v["no_failing_input"] = True
+            v["what_no_longer_checks"] = "accept/reject correspondence between lean/EnumToolsModel/Macro.lean (`expand`) and the derive"
+            out.violations.append(v)
+    cov["samples"] = [{"class": p["cls"], "expect": p["expect"], "implementation": p["impl"], "model": p.get("model"),
+                       "source": p["source"][:700]} for p in mine[:1] + mine[len(mine) // 2: len(mine) // 2 + 1] + mine[-1:]]
+    return mine, bad
+
+
+def eval_compile_fail_of_behav(ctx, out):
+    """every behavioural subject is in the documented domain with a documented configuration"""
+    b = stages.behav_stage(ctx.seed, ctx.tier)
+    cov = out.evidence["coverage"]
+    cov["behavioural_subjects_compiled"] = b["n_subjects"] - len(b["compile_fail"])
+    cov["behavioural_subjects_failed_to_compile"] = len(b["compile_fail"])
+    cov["evaluations"] = cov.get("evaluations", 0) + b["n_subjects"]
+    for m in sorted(b["compile_fail"], key=lambda m: len(m["decl"]))[:2]:
+        out.violations.append({"property": ctx.pid, "kind": "in-domain-declaration-does-not-compile", "declaration": m["decl"],
+                               "rustc_error": m["error"], "model": m["model"], "note": m["note"],
+                               "witness_key": m["note"].split(" cfg=")[0]})
+
+
 def evaluate(ctx, out, problems):
-    raise RuntimeError("property not implemented yet")
+    import props
+    pid = ctx.pid
+    cov = out.evidence["coverage"]
+    if pid in ("C10", "C11"):
+        eval_probes(ctx, out, problems)
+        eval_compile_fail_of_behav(ctx, out)
+    elif pid in ("C12", "C13", "C14", "C15", "C19"):
+        eval_probes(ctx, out, problems)
+    elif pid == "C16":
+        eval_probes(ctx, out, problems)
+        import hostile
+        hostile.evaluate(ctx, out)
+    elif pid == "C17":
+        import determinism
+        determinism.evaluate(ctx, out)
+    else:
+        raise RuntimeError("unknown property " + pid)
+    if problems and not out.violations:
+        out.violations.append(props.no_input_violation(ctx, problems[0], "all probes of this property: observed verdict == verdict the property demands"))
